@@ -1045,6 +1045,15 @@ impl<'a> Ex<'a> {
         if r.is_ok() {
             self.flat_forget(start, len);
             self.m.areas.push(MArea { start, len, prot: 3, data });
+            // C09: a fresh area starts out readable and writable and nothing else, whatever stood at its
+            // address before (an emptied area that had been put under another mask, say)
+            if len > 0 {
+                if let Some(a) = self.ax.verif_areas().into_iter().find(|a| a.start == start && a.length == len) {
+                    if a.access != 3 {
+                        self.ctx.dev("C09", format!("C09|{name}|fresh_area_permissions"), format!("the area just created at {start:#x} (+{len}) has permissions {} instead of read+write", a.access));
+                    }
+                }
+            }
         }
         self.check_areas("C10", &format!("C10|{name}|{}", if r.is_ok() { "created_area_differs" } else { "rejected_request_changed_areas" }), &format!("after {name}({start:#x}, {len}) -> {}", r.class()));
         if rel == "wraps" && r.is_ok() && self.m.areas.len() > before_n {
